@@ -7,7 +7,7 @@ from . import core, httpgen as hg, openapi_gen as og
 DEVIATIONS = ["schema.exclusive_bound_numeric", "v3.trace_route_dropped", "v3.nosecurity_inherits_api_security",
               "v3.fileserver_documents_api_security", "v3.api_security_scheme_undefined", "v3.fileserver_wildcard_kept",
               "v3.fileserver_param_without_schema", "v3.allow_empty_value_not_query", "yaml.leading_newline_dropped",
-              "decode.required_cookie_drops_param_errors"]
+              "decode.required_cookie_drops_param_errors", "schema.required_with_default_not_required"]
 # deviations whose effects show in the same table entry
 INTERACT = [("v3.nosecurity_inherits_api_security", "v3.api_security_scheme_undefined"),
             ("v3.fileserver_documents_api_security", "v3.api_security_scheme_undefined")]
